@@ -199,4 +199,17 @@ META["C18"] = {
     "technique": "TLA+ gossip model (TLC) + trace validation of real agents over memberlist + concurrent stress of the real topology",
 }
 
+META["C19"] = {
+    "text": "Agents.tla specifies which published values the auditor (event digest, version and history digest of the batch's first snapshot + "
+            "the STORED hyper digest of the current version) and the monitor (history digests and versions of first and last snapshot) bind, and "
+            "the publisher's forward-once rule; with the verifiers' soundness/completeness (model-checked in MC_History / MC_Balloon) an alert "
+            "is due exactly when a bound value or the log's answer was altered. The real factories run inside a real agent with the real batch "
+            "processor, client and API handlers over a real node; TLC validates for every delivered batch that an alert is raised iff due, that "
+            "no alert is raised against the honest log (also for alterations of values a task does not bind), that the publisher forwards "
+            "exactly the not-yet-forwarded snapshots, and a crash of the agent (e.g. on an empty batch) is a violation.",
+    "note": "Trusted: TLC, the recording notifier / snapshot store / task manager of the harness. One alteration per batch; the snapshot store being "
+            "unable to deliver a snapshot at all is not judged.",
+    "technique": "TLA+ agent/verifier specification (TLC) + trace validation of the real task factories under single alterations",
+}
+
 NOT_APPLICABLE = {}
